@@ -64,7 +64,7 @@ impl TrackerResp {
 
     fn find_failure_reason(dict: &HashMap<Vec<u8>, BValue>) -> Option<String> {
         match dict.get(&b"failure reason".to_vec()) {
-            Some(BValue::ByteStr(reason)) => String::from_utf8(reason.to_vec()).ok(),
+            Some(BValue::ByteStr(reason)) => Some(String::from_utf8_lossy(reason).into_owned()),
             _ => None,
         }
     }
